@@ -555,16 +555,26 @@ class FieldCompiler(MessageCompiler):
         else:
             raise NotImplementedError(f"Unknown type {self.proto_obj.type}")
 
+    def qualify_builtins(self, annotation: str) -> str:
+        """A field named like a builtin type (`int`, `list`, ...) shadows that type
+        for every annotation of the class: write the type `builtins.<type>` wherever
+        it occurs (inside `Optional[...]`, as `list[...]` / `dict[...]`, ...)."""
+        for name in self.parent.builtins_types:
+            annotation = re.sub(
+                rf"(?<![\w.]){re.escape(name)}(?!\w)", f"builtins.{name}", annotation
+            )
+        return annotation
+
     @property
     def annotation(self) -> str:
         py_type = self.py_type
         if self.use_builtins:
             py_type = f"builtins.{py_type}"
         if self.repeated:
-            return self.typing_compiler.list(py_type)
+            return self.qualify_builtins(self.typing_compiler.list(py_type))
         if self.optional:
-            return self.typing_compiler.optional(py_type)
-        return py_type
+            return self.qualify_builtins(self.typing_compiler.optional(py_type))
+        return self.qualify_builtins(py_type)
 
 
 @dataclass
@@ -640,7 +650,7 @@ class MapEntryCompiler(FieldCompiler):
             f"builtins.{t}" if t in self.parent.builtins_types else t
             for t in (self.py_k_type, self.py_v_type)
         )
-        return self.typing_compiler.dict(k_type, v_type)
+        return self.qualify_builtins(self.typing_compiler.dict(k_type, v_type))
 
     @property
     def repeated(self) -> bool:
